@@ -1108,7 +1108,9 @@ class t2listing(object):
         """Returns a list of time step indices at which the time step is
         reduced, and the blocks at which the maximum residual occurred
         prior to the reduction."""
+        old_index = self._index
         self.rewind()
+        self._index = old_index # (only the file position is needed here)
         line, lastline = '', ''
         keyword = "+++++++++ REDUCE TIME STEP"
         keyend = len(keyword)+1
